@@ -752,3 +752,63 @@ def check_no_count_narrowing(files=None, floor=0):
 
     run.__name__ = "r2_no_count_narrowing_" + "_".join(x.split("/")[-1].replace(".rs", "") for x in (files or ["all"]))
     return run
+
+
+# ------------------------------------------------------------------------------------------
+# conversions to a primitive never go through a primitive that cannot hold every value of the target
+
+_PRIMS = ("u8", "u16", "u32", "u64", "u128", "usize", "i8", "i16", "i32", "i64", "i128", "isize")
+
+
+def _range_of(ty):
+    sg, bits = int_info(ty)
+    return (-(1 << (bits - 1)), (1 << (bits - 1)) - 1) if sg else (0, (1 << bits) - 1)
+
+
+def check_conversion_intermediate(ctx, res, config="all"):
+    """`TryFrom<&Big*> for T` / `ToPrimitive::to_T` may call another `to_X` on the big value only if X can represent every value
+    of T; otherwise a value that fits T but not X is rejected (or mangled)"""
+    facts = ctx.facts(config)
+    n = 0
+    for b in facts.bodies:
+        target = None
+        if b.trait == "core::convert::TryFrom" and (b.self_ty or "") in _PRIMS and any(is_big(t) for t in b.trait_args):
+            target = b.self_ty
+        elif b.trait == "num_traits::ToPrimitive" and is_big(b.self_ty or "") and (b.name or "").startswith("to_") and b.name[3:] in _PRIMS:
+            target = b.name[3:]
+        if target is None:
+            continue
+        n += 1
+        lo, hi = _range_of(target)
+        bad = None
+        bodies = [b] + [c for c in facts.bodies if c.kind == "Closure" and c.path.startswith(b.path + "::{closure")]
+        for bb_ in bodies:
+            for i, t in bb_.calls():
+                nm = callee_name(t) or ""
+                if not nm.startswith("to_") or nm[3:] not in _PRIMS or not t["args"]:
+                    continue
+                pl0 = core.op_place(t["args"][0])
+                aty = bb_.local_ty(pl0["local"]) if pl0 else ""
+                if not is_big(aty):
+                    continue
+                # only the converted value itself (not its magnitude field: the sign gates are R5's business)
+                from .r1 import _base_of_local
+
+                base = _base_of_local(bb_, pl0["local"])
+                if bb_ is b and not (base and base[0] == "param" and base[1] == 1 and not base[2] and not [e for e in pl0["proj"] if e["k"] == "field"]):
+                    continue
+                if bb_ is not b:
+                    continue  # captured values in closures: not followed
+                xlo, xhi = _range_of(nm[3:])
+                tlo = max(lo, 0) if "BigUint" in aty else lo
+                if xlo > tlo or xhi < hi:
+                    bad = (nm, t["span"]["line"])
+        if bad:
+            res.fail(Finding("R2-conversion-intermediate", b.path, "the conversion to %s goes through %s() (line %s), which cannot represent every %s value: values that fit %s but not %s are rejected" % (target, bad[0], bad[1], target, target, bad[0][3:]), b, bad[1]))
+        else:
+            res.ok("R2-conversion-intermediate", b.path, None, nontrivial=False)
+    res.distinct.add("R2-conversion-intermediate:all")
+    res.count("conversions to primitives checked for a too-narrow intermediate", n)
+    if n < 40:
+        res.fail(Finding("R2-anchor-lost", "conversion-intermediate", "only %d conversions to primitives found (floor 40)" % n, file="src/bigint/convert.rs", line=0))
+    res.clause("C08: no conversion of a BigInt/BigUint to a primitive T goes through to_X() for an X that cannot hold every value of T")
